@@ -80,6 +80,12 @@ class NativeSource:
         import types
         return types.SimpleNamespace(**attrs)
 
+    def text_sink(self):
+        """writable text file object (io.StringIO natively; in the verifier a sink that records what print(...,
+        file=sink) renders)."""
+        import io
+        return io.StringIO()
+
     def extracted_fn(self, qual, stubs):
         """The function ``qual`` of a repo module that cannot be IMPORTED in this environment (missing third-party
         package), extracted mechanically: its FunctionDef is cut out of the file's AST and compiled in a namespace
@@ -198,6 +204,10 @@ class EngineSource:
     def facade(self, **attrs):
         from .values import Opaque
         return Opaque("facade", attrs=dict(attrs))
+
+    def text_sink(self):
+        from .values import Opaque
+        return Opaque("text_sink", attrs={"$lines": []})
 
     def extracted_fn(self, qual, stubs):
         return self.fn(qual)  # the engine reads the AST; nothing is imported
